@@ -19,8 +19,9 @@ RULES = {
     'R7': 'every lock of logt_wthread_lock outside the worker is preceded by a test that the lock exists / the thread is active',
     'R9': 'the drain at fini really writes: qb_log_fini clears logger_inited before it stops the thread, so nothing the logging thread calls to write a record (the targets\' logger functions and what they call inside the library) may refuse or return early on !logger_inited - or fini stops the thread first',
     'R10': 'no call through an absent logger: every call through qb_log_target.logger is made only where that target\'s logger was seen to be non-NULL (QB_LOG_CONF_THREADED is accepted for targets that only have a vlogger, such as the blackbox)',
+    'R11': 'what is queued is written before the routing changes: the functions control operations bracket their work with (pause, quiesce) write out every queued record after taking the thread\'s lock, and every change of what the logging thread does with a queued record - a store of a new value to a target\'s threaded switch, a change of the filters or tags of existing call sites (through helpers: judged at the callers), the custom filter function run over them - happens inside such a bracket (or in qb_log_fini after the thread was stopped)',
 }
-FLOORS = {'R1': 11, 'R2': 5, 'R3': 4, 'R4': 5, 'R5': 5, 'R6': 3, 'R7': 3, 'R8': 2, 'R9': 3, 'R10': 2}
+FLOORS = {'R1': 11, 'R2': 5, 'R3': 4, 'R4': 5, 'R5': 5, 'R6': 3, 'R7': 3, 'R8': 2, 'R9': 3, 'R10': 2, 'R11': 5}
 
 LOCK = 'logt_wthread_lock'
 GUARDED = ('logt_print_finished_records', 'logt_memory_used', 'logt_dropped_messages')
@@ -43,13 +44,46 @@ def _global_access(ev):
     return out
 
 
+def entry_locks(fns):
+    """locks certainly held when a static function of the unit is entered: the intersection over its call sites (a static helper
+    that is only called with the queue lock held is analysed as such)"""
+    byname = {f.name: f for f in fns}
+    ent = {f.name: frozenset() for f in fns}
+    for _round in range(3):
+        new = {}
+        for f in fns:
+            if not f.static:
+                new[f.name] = frozenset()
+                continue
+            acc = None
+            for g in fns:
+                at, _IN = lockset(g, entry=ent[g.name])
+                for ev in g.calls(f.name):
+                    held = at.get((ev.blk, ev.idx), frozenset())
+                    acc = held if acc is None else (acc & held)
+            new[f.name] = acc if acc is not None else frozenset()
+        if new == ent:
+            break
+        ent = new
+    return ent
+
+
+ENTRY = {}
+
+
+def lockset_of(f):
+    return lockset(f, entry=ENTRY.get(f.name, frozenset()))
+
+
 def run(ctx):
     prog = ctx.prog
     fns = [f for f in prog.all_fns(files={'lib/log_thread.c'})]
+    ENTRY.clear()
+    ENTRY.update(entry_locks(fns))
     # R1
     n = 0
     for f in fns:
-        at, _IN = lockset(f)
+        at, _IN = lockset_of(f)
         for ev in f.events():
             for g in _global_access(ev):
                 n += 1
@@ -60,6 +94,7 @@ def run(ctx):
     r3(ctx)
     r4(ctx)
     r10(ctx)
+    r11(ctx)
     r5(ctx)
     r6(ctx, fns)
     r7(ctx, fns)
@@ -108,7 +143,16 @@ def r3(ctx):
         raise AnalysisBroken('worker: no pthread_exit')
 
     def asked(a, fb):
-        return a.op == '!=' and a.rc == 0 and a.ls == 'wthread_should_exit'
+        if not (a.op == '!=' and a.rc == 0):
+            return False
+        if a.ls == 'wthread_should_exit':
+            return True
+        l = unwrap(a.l)
+        if l.get('k') == 'var' and l.get('sc') == 'l':
+            # a local copy of the request (taken under the lock)
+            defs, entry = f.reaching_defs(l['n'], f.end_of(fb.id))
+            return bool(defs) and not entry and all(estr(unwrap(d.rhs if d.kind == 'STORE' else d.d.get('init') or {})) == 'wthread_should_exit' for d in defs)
+        return False
 
     def list_empty(a, fb):
         l = unwrap(a.l)
@@ -184,8 +228,33 @@ def r4(ctx):
               'lock and semaphores are destroyed after the join', 'the lock/semaphores are destroyed before the worker was joined')
     wr = list(s.calls('qb_log_thread_log_write'))
     loops = s.natural_loops()
-    ctx.check('R4', 'stop:inactive-drains', bool(wr) and any(w.blk in body for w in wr for body in loops.values()), wr[0] if wr else s,
-              'when the thread is not running the remaining records are written in a loop', 'remaining records are not written when the thread is not running')
+    drains = _drain_helpers(ctx.prog)
+    if not wr and any(s.calls(d) for d in drains):
+        # the drain is a helper: a loop over the record list that writes each record
+        dcalls = [ev for d in drains for ev in s.calls(d)]
+        at2, _IN2 = lockset_of(s)
+        ctx.check('R4', 'stop:inactive-drains', all(LOCK in at2.get((e.blk, e.idx), ()) for e in dcalls), dcalls[0],
+                  'when the thread is not running the remaining records are written (%s, under the lock)' % dcalls[0].callee,
+                  'the remaining records are flushed without the lock')
+    else:
+        ctx.check('R4', 'stop:inactive-drains', bool(wr) and any(w.blk in body for w in wr for body in loops.values()), wr[0] if wr else s,
+                  'when the thread is not running the remaining records are written in a loop', 'remaining records are not written when the thread is not running')
+
+
+def _drain_helpers(prog):
+    """static functions of log_thread.c that write every queued record: a loop over logt_print_finished_records in which each record is
+    unlinked and handed to qb_log_thread_log_write"""
+    out = []
+    for g in prog.all_fns(files={'lib/log_thread.c'}):
+        if not g.static:
+            continue
+        wr = list(g.calls('qb_log_thread_log_write'))
+        dl = list(g.calls('qb_list_del'))
+        loops = g.natural_loops()
+        if wr and dl and any(w.blk in body and any(d.blk in body for d in dl) for w in wr for body in loops.values()) and \
+                any('logt_print_finished_records' in estr(n) for b in g.blocks.values() for ev in b.events for n in [ev.d.get('e') or ev.d.get('rhs') or {}] if n):
+            out.append(g.name)
+    return out
 
 
 def r5(ctx):
@@ -339,7 +408,7 @@ def r7(ctx, fns):
 def r8(ctx, fns):
     n = 0
     for f in fns:
-        at, _IN = lockset(f)
+        at, _IN = lockset_of(f)
         for ev in f.calls('qb_log_thread_log_write'):
             if f.name == 'qb_log_thread_log_post':
                 continue     # direct write while no thread exists (nothing to exclude)
@@ -420,3 +489,95 @@ def r10(ctx):
                       'given QB_LOG_CONF_THREADED makes this a call through NULL' % g.name)
     if n < 2:
         raise AnalysisBroken('calls through qb_log_target.logger: %d' % n)
+
+
+def r11(ctx):
+    prog = ctx.prog
+    tfns = [g for g in prog.all_fns(files={'lib/log_thread.c'})]
+    drains = set(_drain_helpers(prog))
+    # openers: take the lock and then write the queue out; closers: release it
+    openers, closers = set(), set()
+    for g in tfns:
+        if g.static:
+            continue
+        locks = [ev for ev in g.events('CALL') if ev.callee in ('qb_thread_lock',) and LOCK in estr(ev.args[0])]
+        unl = [ev for ev in g.events('CALL') if ev.callee in ('qb_thread_unlock',) and LOCK in estr(ev.args[0])]
+        dr = [ev for ev in g.events('CALL') if ev.callee in drains]
+        if locks and not unl:
+            ok = bool(dr) and all(any(g.ev_dominates(l, d) for d in dr) and g.must_pass(('after', l), lambda ev: ev.kind == 'CALL' and ev.callee in drains)[0] for l in locks)
+            ctx.check('R11', '%s:writes-the-queue-out' % g.name, ok, locks[0], '%s takes the lock and writes out every queued record before its caller changes anything' % g.name,
+                      '%s only keeps the logging thread out: records queued for the old configuration are written (or dropped, or written twice) under the new one' % g.name)
+            openers.add(g.name)
+        elif unl and not locks and not dr:
+            closers.add(g.name)
+    if not openers or not closers:
+        raise AnalysisBroken('log_thread.c: bracket functions not found (openers %s, closers %s)' % (sorted(openers), sorted(closers)))
+    lfns = {g.name: g for g in prog.all_fns(files={'lib/log.c'})}
+
+    def bracketed(g, ev):
+        ops = [e for e in g.events('CALL') if e.callee in openers and g.ev_dominates(e, ev)]
+        if not ops:
+            return False
+        # no closer between the (last dominating) opener and the event on any path, and a closer on every path after it
+        for o in ops:
+            hits, _e, _n = g.search(('after', o), goal=lambda x: x is ev, stop=lambda x: x.kind == 'CALL' and x.callee in closers)
+            if hits and g.must_pass(('after', ev), lambda x: x.kind == 'CALL' and x.callee in closers)[0]:
+                return True
+        return False
+
+    def after_stop(g, ev):
+        return g.name == 'qb_log_fini' and any(g.ev_dominates(s_, ev) for s_ in g.calls('qb_log_thread_stop'))
+
+    def judged(g, ev, what, depth=0, seen=None):
+        """is the effect at ev (in g) inside a bracket, here or - for a function that has no bracket of its own - at every caller?"""
+        seen = seen or set()
+        if bracketed(g, ev) or after_stop(g, ev):
+            return True, None
+        if (g.name, ev.d.get('id')) in seen or depth > 3:
+            return False, (g, ev)
+        seen.add((g.name, ev.d.get('id')))
+        callers = [(h, c) for (h, c) in prog.callers_of(g.name) if h.name in lfns and h.name != g.name]
+        public = (not g.static) and str(prog.decls.get(g.name, {}).get('file', '')).startswith('include/')
+        if public or not callers or any(e.callee in openers for e in g.events('CALL')):
+            # part of the API (applications call it), or nobody to pass the obligation to
+            return False, (g, ev)
+        for (h, c) in callers:
+            ok, where = judged(h, c, what, depth + 1, seen)
+            if not ok:
+                return False, where
+        return True, None
+    n = 0
+    # (1) a new value for a target's threaded switch
+    for g in lfns.values():
+        for st in g.events('STORE'):
+            lf = last_field(st.lhs)
+            if lf == ('qb_log_target', 'threaded') and cval(unwrap(st.rhs)) is None:
+                n += 1
+                ok, where = judged(g, st, 'threaded')
+                ctx.check('R11', '%s:threaded-switch-inside-bracket' % g.name, ok, st, 'the threaded switch changes with the queue written out and the thread kept out',
+                          'a target\'s threaded switch is changed while records may be queued: switched on, the thread writes the backlog to a target that has '
+                          'already written those lines itself (duplicates); switched off, the target\'s backlog is never written and nothing is reported lost')
+    # (2) filters / tags of existing call sites: the function that stores a filter and applies it to the sections
+    cores = [g for g in lfns.values() if list(g.calls('_log_filter_store')) and list(g.calls('_log_filter_apply'))]
+    if len(cores) != 1:
+        raise AnalysisBroken('log.c: filter core functions = %s' % [g.name for g in cores])
+    core = cores[0]
+    aps = list(core.calls('_log_filter_apply'))
+    n += 1
+    ok, where = judged(core, aps[0], 'filters')
+    ctx.check('R11', 'filter-change-inside-bracket', ok, (where[1] if where else aps[0]),
+              'every way into %s is inside a pause/quiesce bracket or behind the stop of the thread' % core.name,
+              'filters or tags of existing call sites are changed (%s) while records may be queued: the logging thread decides from the call site\'s target bits '
+              'when it writes, so what was logged for a target before the change is dropped or delivered according to the new filters' % (where[0].name if where else core.name))
+    # (3) the custom filter function run over the existing call sites
+    for g in lfns.values():
+        for ev in g.events('CALL'):
+            if ev.callee == 'var:_custom_filter_fn' or (ev.callee or '').endswith('_custom_filter_fn'):
+                loops = g.natural_loops()
+                if any(ev.blk in body for body in loops.values()) and g.name != 'qb_log_callsites_register' and not g.static:
+                    n += 1
+                    ok, where = judged(g, ev, 'custom')
+                    ctx.check('R11', '%s:custom-filter-inside-bracket' % g.name, ok, ev, 'the custom filter function is run over the call sites inside a bracket',
+                              'the custom filter function is run over existing call sites while records may be queued')
+    if n < 3:
+        raise AnalysisBroken('R11: only %d routing changes found' % n)
